@@ -17,6 +17,7 @@ import (
 	"io"
 	"math/rand"
 	"os"
+	"path/filepath"
 	"strings"
 	"testing"
 	"time"
@@ -51,6 +52,67 @@ type config struct {
 	DataLen int    `json:"data_len"`
 	DataGen string `json:"data_gen"` // random | zero | period-K
 	DataSd  int64  `json:"data_seed"`
+	Reader  string `json:"reader"`  // kind of input stream of the import that is observed: bytes | short | pathfile | serial
+	Reader2 string `json:"reader2"` // kind of input stream of the second import (always a different kind)
+}
+
+// Input streams.  The importer must not care how the bytes arrive: a plain
+// bytes.Reader, irregular short reads, a files.ReaderFile that knows a source path
+// (files.NewReaderPathFile) or a files.NewSerialFile over a real file on disk; the
+// last two implement files.FileInfo, which only matters with NoCopy (never set here).
+var readerKinds = []string{"bytes", "short", "pathfile", "serial"}
+
+var tmpDir string // set by TestC07
+
+func mkReader(kind string, data []byte, rng *rand.Rand) (io.Reader, func(), error) {
+	switch kind {
+	case "short":
+		return &shortReader{r: bytes.NewReader(data), rng: rng}, func() {}, nil
+	case "pathfile":
+		f, err := files.NewReaderPathFile("/verif-c07/source/input.bin", io.NopCloser(bytes.NewReader(data)), nil)
+		if err != nil {
+			return nil, nil, err
+		}
+		return f, func() { f.Close() }, nil
+	case "serial":
+		path := filepath.Join(tmpDir, "input.bin")
+		if err := os.WriteFile(path, data, 0o640); err != nil {
+			return nil, nil, err
+		}
+		stat, err := os.Lstat(path)
+		if err != nil {
+			return nil, nil, err
+		}
+		nd, err := files.NewSerialFile(path, false, stat)
+		if err != nil {
+			return nil, nil, err
+		}
+		f, ok := nd.(files.File)
+		if !ok {
+			return nil, nil, fmt.Errorf("NewSerialFile on a regular file did not return a files.File")
+		}
+		return f, func() { f.Close() }, nil
+	}
+	return bytes.NewReader(data), func() {}, nil
+}
+
+func genReaders(r *rand.Rand, c *config) {
+	switch x := r.Intn(20); {
+	case x < 7:
+		c.Reader = "bytes"
+	case x < 10:
+		c.Reader = "short"
+	case x < 16:
+		c.Reader = "pathfile"
+	default:
+		c.Reader = "serial"
+	}
+	for {
+		c.Reader2 = readerKinds[r.Intn(len(readerKinds))]
+		if c.Reader2 != c.Reader {
+			return
+		}
+	}
 }
 
 func (c config) builder() cid.Builder {
@@ -298,7 +360,13 @@ func runCase(c config, rng *rand.Rand) result {
 	res.nchunks = len(chunks)
 
 	ds := mdtest.Mock()
-	root, err := doImport(c, data, ds, bytes.NewReader(data))
+	rd1, close1, err := mkReader(c.Reader, data, rng)
+	if err != nil {
+		res.fatal = fmt.Errorf("input stream: %w", err)
+		return res
+	}
+	root, err := doImport(c, data, ds, rd1)
+	close1()
 	if err != nil {
 		res.fatal = fmt.Errorf("import: %w", err)
 		return res
@@ -352,9 +420,15 @@ func runCase(c config, rng *rand.Rand) result {
 	wantAttrs := c.Perms != 0 || c.HasMt
 	res.metaLost = wantAttrs && mode == 0 && mt.IsZero()
 
-	// second import: other store, data delivered in short reads
+	// second import: other store, the same bytes through another kind of input stream
 	ds2 := mdtest.Mock()
-	root2, err := doImport(c, data, ds2, &shortReader{r: bytes.NewReader(data), rng: rng})
+	rd2, close2, err := mkReader(c.Reader2, data, rng)
+	if err != nil {
+		res.fatal = fmt.Errorf("input stream: %w", err)
+		return res
+	}
+	root2, err := doImport(c, data, ds2, rd2)
+	close2()
 	if err != nil {
 		res.fatal = fmt.Errorf("second import: %w", err)
 		return res
@@ -523,6 +597,7 @@ func genSmall(r *rand.Rand, maxChunks int) config {
 		c.DataLen -= r.Intn(cs) // short last chunk
 	}
 	genMeta(r, &c)
+	genReaders(r, &c)
 	return c
 }
 
@@ -566,6 +641,7 @@ func genBig(r *rand.Rand, maxLen int) config {
 		c.DataLen += 1 << 19 // buzhash chunks are >= 128 KiB
 	}
 	genMeta(r, &c)
+	genReaders(r, &c)
 	return c
 }
 
@@ -596,13 +672,32 @@ func corpus() []config {
 			}
 		}
 	}
+	// input streams that know a source path, attributes requested, roots that are ProtoNodes
+	for i, rk := range []string{"pathfile", "serial"} {
+		for _, l := range []string{"balanced", "trickle"} {
+			cs = append(cs,
+				config{Layout: l, Width: 3, Raw: i == 0, Chunker: "size-2", Cid: "v1-sha256", Perms: 0o644, DataLen: 9, DataGen: "random", DataSd: 11, Reader: rk, Reader2: "bytes"},
+				config{Layout: l, Width: 174, Raw: false, Chunker: "size-262144", Cid: "nil", HasMt: true, Sec: 1700000000, Nsec: 1, DataLen: 7, DataGen: "random", DataSd: 12, Reader: rk, Reader2: "short"},
+				config{Layout: l, Width: 2, Raw: true, Chunker: "size-1", Cid: "v0", Perms: 0o755, HasMt: true, Sec: 5, DataLen: 0 + 3*i, DataGen: "random", DataSd: 13, Reader: "bytes", Reader2: rk})
+		}
+	}
+	for i := range cs {
+		if cs[i].Reader == "" {
+			cs[i].Reader = readerKinds[i%4]
+			cs[i].Reader2 = readerKinds[(i+1+i/4%3)%4]
+			if cs[i].Reader2 == cs[i].Reader {
+				cs[i].Reader2 = readerKinds[(i+2)%4]
+			}
+		}
+	}
 	return cs
 }
 
 func TestC07(t *testing.T) {
 	e := vh.Load(t)
+	tmpDir = t.TempDir()
 	st := vh.NewStats("real balanced.Layout / trickle.Layout on generated (data, chunker, width, leaf type, CID builder, mode/mtime); " +
-		"DAG read back from the store node by node, DagReader output, second import into another store with short reads; " +
+		"input delivered as bytes.Reader / short reads / files.NewReaderPathFile / files.NewSerialFile over a temp file (NoCopy false); DAG read back from the store node by node, DagReader output, second import into another store through a different kind of input stream (root CID must not depend on it); " +
 		"non-trivial = at least 2 chunks and a tree of height >= 2, or attributes requested; distinct by configuration")
 	cs := vh.NewCases(e, "From V Require Import lib.Tree model.M_C07.\nOpen Scope Z_scope.", "case", "check_case", 60)
 	nSmall, nBig := e.Pick(320, 4000), e.Pick(30, 250)
@@ -627,6 +722,7 @@ func TestC07(t *testing.T) {
 		key := fmt.Sprintf("%+v", c)
 		st.Case(key, (res.nchunks >= 2 && res.height >= 2) || c.Perms != 0 || c.HasMt)
 		st.Count("layout=" + c.Layout)
+		st.Count("reader=" + c.Reader + "/" + c.Reader2)
 		st.Count(fmt.Sprintf("raw=%v", c.Raw))
 		st.Count("cid=" + c.Cid)
 		st.Count(fmt.Sprintf("height=%d", res.height))
